@@ -93,7 +93,7 @@ def corpus(seed=0, tier="quick", **_):
                 probs = S.generic_invariants(sim)
                 if got != (want[0], want[1]):
                     probs.append("C01: machine %s on %s: engine %s, the States Language gives %s" % (name, json.dumps(data), got, want))
-                probs, hit = known.split("natives.c01", "%s#%d" % (name, di), probs)
+                probs, hit = known.split("natives.c01", "%s#%d" % (name, di), probs, sim=sim)
                 known_hit.update(hit)
                 if probs:
                     return {"failed": True, "evaluations": n, "input": {"machine": name, "definition": asl, "input": data, "schedule": trace, "mode": mode},
